@@ -59,7 +59,7 @@ func (Prop) Size(tier string) int {
 	if tier == "thorough" {
 		return 150000
 	}
-	return 4000
+	return 3000
 }
 func (Prop) FreshProcessShrink() bool { return true }
 
@@ -428,6 +428,7 @@ func (Prop) Run(p *core.Plan) *core.Result {
 		}
 		for i, ops := range w.Tasks {
 			i, ops := i, ops
+			simrt.SetBudget(3000000) // per task
 			pv, blown := core.Guard(func() { solo[i] = shSolo.doOps(ops) })
 			if blown {
 				return "solo reference exceeded the step budget"
@@ -450,9 +451,9 @@ func (Prop) Run(p *core.Plan) *core.Result {
 	}
 	concBlown := false
 	if w.ConcFirst {
+		simrt.SetBudget(3000000 * uint64(len(w.Tasks)))
 		runConc()
 		concBlown = world.Blown
-		simrt.SetBudget(3000000)
 		if msg := runSolo(); msg != "" {
 			simrt.End()
 			return &core.Result{Infra: msg}
@@ -462,7 +463,7 @@ func (Prop) Run(p *core.Plan) *core.Result {
 			simrt.End()
 			return &core.Result{Infra: msg}
 		}
-		simrt.SetBudget(3000000)
+		simrt.SetBudget(3000000 * uint64(len(w.Tasks)))
 		runConc()
 		concBlown = world.Blown
 	}
